@@ -3,8 +3,8 @@ import os, re, subprocess, itertools, json, difflib
 from .. import engine, macrocheck as mc
 from ..scn import Rng
 
-CLASSES = ['own', 'ref', 'refref', 'mut', 'imp', 'slice']
-RECVS = ['ref', 'mut', 'own', 'rc', 'arc', 'pin']
+CLASSES = ['own', 'ref', 'refref', 'mut', 'imp', 'slice', 'mutdyn']
+RECVS = ['ref', 'mut', 'own', 'rc', 'arc', 'pin', 'tref', 'tmut']
 SHAPES = os.path.join(engine.HARNESS, 'target', 'debug', 'shapes')
 
 def param_lists(tier, rng):
@@ -107,6 +107,14 @@ class MacroCheck:
                     if a != b:
                         d = next(((x, y) for x, y in itertools.zip_longest(a, b, fillvalue='<none>') if x != y))
                         interesting = self.facts_of_interest is None or re.search(self.facts_of_interest, d[0] + '\n' + d[1])
+                        if not interesting:
+                            # the first differing line may be incidental: any fact the property speaks about that is present on
+                            # one side only makes the difference a spec difference
+                            only_real = [x for x in a if x not in b and re.search(self.facts_of_interest, x)]
+                            only_model = [y for y in b if y not in a and re.search(self.facts_of_interest, y)]
+                            if only_real or only_model:
+                                d = ((only_real or ['<absent>'])[0], (only_model or ['<absent>'])[0])
+                                interesting = True
                         (spec_bad if interesting else tie_bad).append((t, key, d))
                 if len(samples) < 2:
                     samples.append({'attr': t.attr(), 'trait': t.source(), 'facts': r[:14]})
